@@ -679,7 +679,7 @@ func (sh *shared) shouldStop() bool {
 	if sh.stop {
 		return true
 	}
-	if len(sh.viols) >= sh.cfg.MaxViolations || sh.violTotal() >= 2000000 || sh.paths >= sh.cfg.MaxPaths {
+	if len(sh.viols) >= sh.cfg.MaxViolations || int64(sh.violTotal()) >= sh.cfg.MaxViolPaths || sh.paths >= sh.cfg.MaxPaths {
 		sh.stop = true
 		sh.cond.Broadcast()
 		return true
